@@ -57,7 +57,8 @@ pub fn gen_case(r: &mut Rng) -> FCase {
     let mut geoms: Vec<Option<(usize, usize, usize, i64, u64)>> = vec![None; nf];
     for (i, f) in filters.iter().enumerate() {
         if *f != 2 && r.chance(1, 2) {
-            let colors = 1 + r.usize_below(4);
+            // 1..4 components are the common case; any number is legal since PDF 1.3 (DeviceN samples)
+            let colors = if r.chance(1, 5) { 5 + r.usize_below(8) } else { 1 + r.usize_below(4) };
             let bpc = *r.pick(&[8usize, 16]);
             let cols = 1 + r.usize_below(64);
             let pred = 10 + r.below(6) as i64;
@@ -462,7 +463,7 @@ pub fn run(cfg: &RunCfg) -> (PropMeta, ShardOut, Map<String, Value>) {
     });
     let meta = PropMeta {
         level: "exploration",
-        rule: "random plaintexts encoded by the reference encoders through every chain of 1..3 filters over {FlateDecode (stored/fixed/mixed blocks), LZWDecode (EarlyChange 0/1), ASCII85Decode (z, white-space)} with PNG predictors 10..15 (row filters none/sub/up/avg/paeth/mixed) x Colors 1..4 x BitsPerComponent {8,16} x Columns 1..64, DecodeParms as dictionary or as array parallel to Filter with null holes; lopdf's decompressed_content/get_plain_content/decompress must return the plaintext and maintain Length; compress/decompress/set_content/set_plain_content (each starting from a Length entry that is correct, stale, a reference or absent) and Document::compress/decompress round trips, also on 1-4 MB of constant or short-period content (maximum deflate ratio) and on already filtered streams. Exhaustive: 2^24 Paeth triples, all Sub/Up/Avg byte pairs through png::decode_row; all 1- and 2-byte final ASCII85 groups (3-byte: every 37th in quick, all 2^24 in thorough); z groups and the 0xFFFFFFFF group. distinct = distinct (dictionary, encoded bytes).".into(),
+        rule: "random plaintexts encoded by the reference encoders through every chain of 1..3 filters over {FlateDecode (stored/fixed/mixed blocks), LZWDecode (EarlyChange 0/1), ASCII85Decode (z, white-space)} with PNG predictors 10..15 (row filters none/sub/up/avg/paeth/mixed) x Colors 1..12 x BitsPerComponent {8,16} x Columns 1..64, DecodeParms as dictionary or as array parallel to Filter with null holes; lopdf's decompressed_content/get_plain_content/decompress must return the plaintext and maintain Length; compress/decompress/set_content/set_plain_content (each starting from a Length entry that is correct, stale, a reference or absent) and Document::compress/decompress round trips, also on 1-4 MB of constant or short-period content (maximum deflate ratio) and on already filtered streams. Exhaustive: 2^24 Paeth triples, all Sub/Up/Avg byte pairs through png::decode_row; all 1- and 2-byte final ASCII85 groups (3-byte: every 37th in quick, all 2^24 in thorough); z groups and the 0xFFFFFFFF group. distinct = distinct (dictionary, encoded bytes).".into(),
         assumptions: vec!["reference encoders/decoders were cross-checked against zlib and base64.a85 during development and self-test at setup (ISO LZW example, zlib streams from real zlib)".into()],
         exhaustive: false,
         min_distinct: 1000,
